@@ -219,6 +219,21 @@ func (w *World) Step(ws []string) (out string, handled bool) {
 			}
 		}
 		return "ok", true
+	case ws[0] == "msgb" && len(ws) == 4:
+		// a message given by its bytes (hex, "-" = empty): hashes of any length
+		if _, ok := ParseFr(ws[3]); !ok {
+			return bad()
+		}
+		b := []byte{}
+		if ws[2] != "-" {
+			d, err := hex.DecodeString(ws[2])
+			if err != nil {
+				return bad()
+			}
+			b = d
+		}
+		w.Msgs[ws[1]] = b
+		return "ok", true
 	case ws[0] == "rawmsg" && len(ws) == 3:
 		// a message that is signed as the literal string (the VRF message of a round)
 		if _, ok := ParseFr(ws[2]); !ok {
